@@ -38,7 +38,7 @@ PUBLISHED = {
     2: "3059301306072A8648CE3D020106082A8648CE3D030107034200040CD731ED3730E53F7244EE71D8D54F5300885FF645EC8FD27FA3D9D1C4629FAF6536A1F5B46F0C7CA923EE284C115B9D6514EDEF9AA1FDBF1F54030B49AEF8A6",
     3: "3059301306072A8648CE3D020106082A8648CE3D03010703420004B6BC3D318417AE9099A228C29A0DE85AC053EAB5B3AA508BF4A438BF15FF8B551A04004051801A3D08A6055715C9DFF38FD2EFAA311C8154BD9A302597C86053",
 }
-INVALID_CLASSES = ["off_curve_random", "x_ge_p", "y_ge_p", "zero_zero", "on_twist", "y_plus_1", "y_minus_1", "truncated_point", "x_equals_p", "valid_x_wrong_y_random"]
+INVALID_CLASSES = ["off_curve_random", "x_ge_p", "y_ge_p", "zero_zero", "on_twist", "y_plus_1", "y_minus_1", "truncated_point", "x_equals_p", "valid_x_wrong_y_random", "x_plus_p_congruent_to_a_curve_point"]
 
 
 def plan(tier, seed):
@@ -367,6 +367,14 @@ def invalid_point(rng, cls):
         elif cls in ("y_plus_1", "y_minus_1"):
             gx, gy = ecies.pub_of(rng.randrange(1, ecies.P256_N))
             x, y = gx, (gy + (1 if cls == "y_plus_1" else -1)) % p
+        elif cls == "x_plus_p_congruent_to_a_curve_point":
+            # (x, y) ON the curve with x so small that x + p still fits in 32 bytes: the encoded value is out of range although it
+            # is congruent to a valid coordinate
+            while True:
+                small = rng.randrange(1, 1 << 40)
+                rhs = (small ** 3 - 3 * small + ecies.P256_B) % p
+                if pow(rhs, (p - 1) // 2, p) == 1:
+                    return small + p, pow(rhs, (p + 1) // 4, p)
         elif cls == "valid_x_wrong_y_random":
             gx, gy = ecies.pub_of(rng.randrange(1, ecies.P256_N))
             x, y = gx, rng.randrange(p)
